@@ -85,6 +85,10 @@ type zzC04Variant struct {
 	// Spelling probes (a few dedicated tour segments only).
 	MacColon8   bool `json:"maccolon8"`   // spell 8-byte macs with colons, as HardwareAddr.String does
 	NetHostBits bool `json:"nethostbits"` // spell prefixes with (varying) host bits set
+
+	// Zoned: the universe has IPv6 zones (address number = zone<<W | bits):
+	// IPv6 link-local base, whatever V6 says.
+	Zoned bool `json:"zoned"`
 }
 
 var zzC04NamePools = [][]string{
@@ -126,7 +130,12 @@ func (c zzC04Conc) hostByte(a int, fill bool) (b byte) {
 	return b
 }
 
+func (c zzC04Conc) v6() (ok bool) { return c.v.V6 || c.v.Zoned }
+
 func (c zzC04Conc) addrOfByte(b byte) (ip netip.Addr) {
+	if c.v.Zoned {
+		return netip.AddrFrom16([16]byte{0xfe, 0x80, 0, 0, 0, 0, 0, 0, 0, 0, 0, 0, 0, 0x07, 0, b})
+	}
 	if c.v.V6 {
 		a16 := [16]byte{0xfd, 0x00, 0, 0, 0, 0, 0, 0, 0, 0, 0, 0, 0, 0x07, 0, b}
 
@@ -136,11 +145,23 @@ func (c zzC04Conc) addrOfByte(b byte) (ip netip.Addr) {
 	return netip.AddrFrom4([4]byte{192, 168, 7, b})
 }
 
-func (c zzC04Conc) addr(a int) (ip netip.Addr) { return c.addrOfByte(c.hostByte(a, true)) }
+var zzC04Zones = []string{"", "eth0", "wlan1", "br-lan", "5"}
+
+// addr renders the address number n = zone<<W | bits (ClientsCore.tla): the
+// bits select the bytes, the zone (if any) is appended as an IPv6 zone.
+func (c zzC04Conc) addr(n int) (ip netip.Addr) {
+	bits, zone := n&(1<<c.v.W-1), n>>c.v.W
+	ip = c.addrOfByte(c.hostByte(bits, true))
+	if zone > 0 {
+		ip = ip.WithZone(zzC04Zones[zone%len(zzC04Zones)])
+	}
+
+	return ip
+}
 
 func (c zzC04Conc) prefix(base, l int) (p netip.Prefix) {
 	bits := 24 + l
-	if c.v.V6 {
+	if c.v6() {
 		bits = 120 + l
 	}
 
@@ -174,6 +195,27 @@ func (c zzC04Conc) cid(n int) (s string) {
 	pre := []string{"cli", "dev-x", "a1", "my-phone"}[c.mix(0, 7)%4]
 
 	return fmt.Sprintf("%s-%d", pre, n)
+}
+
+// storedString is the spelling under which client number owner registers the
+// identifier: ClientIDs and macs in a letter case that is a fixed (seeded)
+// function of the owner and the identifier, so two clients spell the same
+// ClientID differently.  Requests and lookups use idString (lower case, as
+// dnsforward lower-cases what it extracts from a request).
+func (c zzC04Conc) storedString(id zzC04ID, owner int) (s string) {
+	s = c.idString(id)
+	if id.K != "cid" && id.K != "mac" {
+		return s
+	}
+	pat := c.mix(owner*131+id.X, 55)
+	b := []byte(s)
+	for i := range b {
+		if b[i] >= 'a' && b[i] <= 'z' && pat&(1<<(i%24)) != 0 {
+			b[i] -= 'a' - 'A'
+		}
+	}
+
+	return string(b)
 }
 
 // idString renders an identifier the way a user would type it.
@@ -260,7 +302,7 @@ func (a *zzC04Abs) idsOf(p *Persistent) (ids []zzC04ID, ok bool) {
 		add(id, f)
 	}
 	for _, s := range p.ClientIDs {
-		id, f := a.cids[s]
+		id, f := a.cids[strings.ToLower(s)]
 		add(id, f)
 	}
 
@@ -363,15 +405,31 @@ func zzC04NewRig(tb testing.TB, dir string, gVals [4]bool, gSvcs []string) (r *z
 // reset installs a fresh, empty Storage and lease table.
 func (r *zzC04Rig) reset(tb testing.TB) {
 	r.dhcp = &zzC04DHCP{leases: map[netip.Addr]net.HardwareAddr{}}
-	st, err := NewStorage(r.ctx, &StorageConfig{
-		Logger: slogutil.NewDiscardLogger(),
-		Clock:  timeutil.SystemClock{},
-		DHCP:   r.dhcp,
-	})
-	if err != nil {
+	if err := r.load(nil); err != nil {
 		tb.Fatalf("NewStorage: %v", err)
 	}
+}
+
+// load starts a new Storage from the clients of a configuration file, the way
+// home's clients.Init does (NewStorage with InitialClients); the lease table
+// stays.  If the configuration is refused there is no registry: an empty one
+// is installed for the lookups that follow.
+func (r *zzC04Rig) load(initial []*Persistent) (err error) {
+	conf := func(cs []*Persistent) (c *StorageConfig) {
+		return &StorageConfig{
+			Logger:         slogutil.NewDiscardLogger(),
+			Clock:          timeutil.SystemClock{},
+			DHCP:           r.dhcp,
+			InitialClients: cs,
+		}
+	}
+	st, err := NewStorage(r.ctx, conf(initial))
+	if err != nil {
+		st, _ = NewStorage(r.ctx, conf(nil))
+	}
 	r.st = st
+
+	return err
 }
 
 // persistent builds a client the way home.jsonToClient does: fresh UID, SetIDs
@@ -460,6 +518,7 @@ type zzC04Uni struct {
 	CIDs       []zzC04ID `json:"cids"`
 	LeaseAddrs []int     `json:"leaseaddrs"`
 	W          int       `json:"w"`
+	Zoned      bool      `json:"zoned"`
 }
 
 type zzC04State struct {
@@ -508,6 +567,7 @@ type zzC04Rigs map[int]*zzC04Rig
 
 func zzC04NewRunner(tb testing.TB, uni *zzC04Uni, v zzC04Variant, dir string, rigs zzC04Rigs) (rn *zzC04Runner) {
 	v.W = uni.W
+	v.Zoned = uni.Zoned
 	c := zzC04Conc{v: v}
 	rn = &zzC04Runner{tb: tb, uni: uni, conc: c, abs: zzC04NewAbs(c, uni.IDs), nameI: map[string]int{}, idBit: map[zzC04ID]int{}}
 	rn.rng = rand.New(rand.NewSource(v.Seed))
@@ -545,13 +605,13 @@ func (rn *zzC04Runner) build(nameIdx, mask, fl int) (p *Persistent, err error) {
 			// The same network, written with some host bits set.
 			p := rn.conc.prefix(id.X, id.Y)
 			b := p.Addr().AsSlice()
-			b[len(b)-1] |= byte(rn.rng.Intn(256)) & byte(0xff>>uint(id.Y))
+			b[len(b)-1] |= byte(rn.conc.mix(nameIdx*977+i, 77)) & byte(0xff>>uint(id.Y))
 			a, _ := netip.AddrFromSlice(b)
 			ids = append(ids, netip.PrefixFrom(a, p.Bits()).String())
 
 			continue
 		}
-		ids = append(ids, rn.idStr[i])
+		ids = append(ids, rn.conc.storedString(id, nameIdx))
 	}
 	rn.rng.Shuffle(len(ids), func(i, j int) { ids[i], ids[j] = ids[j], ids[i] })
 
@@ -638,6 +698,23 @@ func (rn *zzC04Runner) step0(s []int) (out int, concrete string) {
 		}
 		rn.rig.dhcp.set(addr, mac)
 		concrete = fmt.Sprintf("lease %s -> %v", addr, mac)
+	case 5:
+		// A configuration file with two clients; only taken from an empty
+		// registry (ClientsCore!LoadRes).
+		n := 1 << len(rn.uni.IDs)
+		p1, err := rn.build(a, mask%n, fl%4)
+		if err != nil {
+			rn.tb.Fatalf("SetIDs: %v", err)
+		}
+		p2, err := rn.build(b, mask/n, fl/4)
+		if err != nil {
+			rn.tb.Fatalf("SetIDs: %v", err)
+		}
+		concrete = fmt.Sprintf("NewStorage(InitialClients: %q %v, %q %v)", p1.Name, p1.IDs(), p2.Name, p2.IDs())
+		if err = rn.rig.load([]*Persistent{p1, p2}); err != nil {
+			out = 1
+			concrete += " -> " + err.Error()
+		}
 	default:
 		rn.tb.Fatalf("bad op %d", op)
 	}
@@ -1112,17 +1189,18 @@ type zzC04TLookup struct {
 }
 
 type zzC04TLine struct {
-	Op    string         `json:"op"` // reset | add | upd | rem | lease
-	Trace int            `json:"trace"`
-	G     *zzC04TClient  `json:"g,omitempty"`
-	C     *zzC04TClient  `json:"c,omitempty"`
-	N     string         `json:"n"`
-	A     int            `json:"a"`
-	M     zzC04ID        `json:"m"`
-	Out   string         `json:"out"`
-	Q     []zzC04TLookup `json:"q"`
-	Conc  string         `json:"conc"`
-	V     *zzC04Variant  `json:"variant,omitempty"`
+	Op    string          `json:"op"` // reset | add | upd | rem | lease
+	Trace int             `json:"trace"`
+	G     *zzC04TClient   `json:"g,omitempty"`
+	C     *zzC04TClient   `json:"c,omitempty"`
+	Cs    []*zzC04TClient `json:"cs"` // op load: the clients of the configuration file
+	N     string          `json:"n"`
+	A     int             `json:"a"`
+	M     zzC04ID         `json:"m"`
+	Out   string          `json:"out"`
+	Q     []zzC04TLookup  `json:"q"`
+	Conc  string          `json:"conc"`
+	V     *zzC04Variant   `json:"variant,omitempty"`
 }
 
 func TestZZVerifC04Trace(t *testing.T) {
@@ -1156,7 +1234,17 @@ func TestZZVerifC04Trace(t *testing.T) {
 func zzC04OneTrace(tb testing.TB, w *zzWriter, tr, nOps int, seed int64, dir string) {
 	rng := rand.New(rand.NewSource(seed))
 	v := zzC04Variant{MacLen: []int{6, 8, 20}[rng.Intn(3)], V6: rng.Intn(3) == 0, Seed: seed, Names: rng.Intn(len(zzC04NamePools)), Global: rng.Intn(16), W: 8}
+	// A third of the histories live on link-local IPv6 with zones: address
+	// number = zone<<8 | byte.
+	v.Zoned = rng.Intn(3) == 0
 	c := zzC04Conc{v: v}
+	zoneOf := func() (z int) {
+		if !v.Zoned || rng.Intn(3) == 0 {
+			return 0
+		}
+
+		return (1 + rng.Intn(3)) << 8
+	}
 
 	// The identifier pool: nested prefix chains around a few anchor
 	// addresses, addresses inside and outside them, macs, ClientIDs.
@@ -1178,9 +1266,17 @@ func zzC04OneTrace(tb testing.TB, w *zzWriter, tr, nOps int, seed int64, dir str
 		}
 		push(zzC04ID{K: "ip", X: anchor})
 		for j := 0; j < 2; j++ {
-			a := anchor ^ (1 << rng.Intn(8))
+			a := anchor ^ (1 << rng.Intn(8)) | zoneOf()
 			addrs = append(addrs, a)
 			push(zzC04ID{K: "ip", X: a})
+		}
+		if v.Zoned {
+			// the anchor itself in two zones: distinct exact addresses
+			for _, z := range rng.Perm(3)[:2] {
+				a := anchor | (z+1)<<8
+				addrs = append(addrs, a)
+				push(zzC04ID{K: "ip", X: a})
+			}
 		}
 	}
 	for i := 0; i < 3; i++ {
@@ -1209,7 +1305,20 @@ func zzC04OneTrace(tb testing.TB, w *zzWriter, tr, nOps int, seed int64, dir str
 	rig := zzC04NewRig(tb, dir, zzC04Bits(v.Global), gSvcs)
 	defer rig.df.Close()
 
-	w.put(&zzC04TLine{Op: "reset", Trace: tr, V: &v, G: &zzC04TClient{Vals: rig.gVals, Svcs: gSvcs, IDs: []zzC04ID{}}, Q: []zzC04TLookup{}})
+	w.put(&zzC04TLine{Op: "reset", Trace: tr, Cs: []*zzC04TClient{}, V: &v, G: &zzC04TClient{Vals: rig.gVals, Svcs: gSvcs, IDs: []zzC04ID{}}, Q: []zzC04TLookup{}})
+
+	nameNo := map[string]int{}
+	for i, n := range names {
+		nameNo[n] = i + 1
+	}
+	// stored renders the identifiers as the client called name registers them.
+	stored := func(name string, tids []zzC04ID) (ids []string) {
+		for _, id := range tids {
+			ids = append(ids, c.storedString(id, nameNo[name]))
+		}
+
+		return ids
+	}
 
 	randClient := func() (tc *zzC04TClient, p *Persistent) {
 		tc = &zzC04TClient{Name: names[rng.Intn(len(names))], Own: rng.Intn(2) == 0, Bs: rng.Intn(2) == 0, Vals: zzC04Bits(rng.Intn(16)), Svcs: []string{}}
@@ -1219,10 +1328,7 @@ func zzC04OneTrace(tb testing.TB, w *zzWriter, tr, nOps int, seed int64, dir str
 		for _, i := range rng.Perm(len(zzC04Services))[:rng.Intn(3)] {
 			tc.Svcs = append(tc.Svcs, zzC04Services[i])
 		}
-		var ids []string
-		for _, id := range tc.IDs {
-			ids = append(ids, c.idString(id))
-		}
+		ids := stored(tc.Name, tc.IDs)
 		p, err := rig.persistent(tc.Name, ids, tc.Own, tc.Bs, tc.Vals, tc.Svcs)
 		if err != nil {
 			tb.Fatalf("SetIDs(%v): %v", ids, err)
@@ -1262,7 +1368,7 @@ func zzC04OneTrace(tb testing.TB, w *zzWriter, tr, nOps int, seed int64, dir str
 				case k < 5:
 					a := addrs[rng.Intn(len(addrs))]
 					if rng.Intn(4) == 0 {
-						a = rng.Intn(256)
+						a = rng.Intn(256) | zoneOf()
 					}
 					id := zzC04ID{K: "ip", X: a}
 					q.T, q.ID, q.Conc = "find", &id, c.idString(id)
@@ -1278,7 +1384,7 @@ func zzC04OneTrace(tb testing.TB, w *zzWriter, tr, nOps int, seed int64, dir str
 					}
 					a := addrs[rng.Intn(len(addrs))]
 					if rng.Intn(4) == 0 {
-						a = rng.Intn(256)
+						a = rng.Intn(256) | zoneOf()
 					}
 					q.T, q.ID, q.A = "apply", &cid, a
 					e := rig.effective(cs, c.addr(a))
@@ -1332,8 +1438,28 @@ func zzC04OneTrace(tb testing.TB, w *zzWriter, tr, nOps int, seed int64, dir str
 		return "ok"
 	}
 
+	// The history starts like the process does: from the clients of a
+	// configuration file (0-3 of them, clashes included).
+	{
+		ln := &zzC04TLine{Op: "load", Trace: tr, M: zzC04NoID, Cs: []*zzC04TClient{}}
+		var ps []*Persistent
+		for i := rng.Intn(4); i > 0; i-- {
+			tc, p := randClient()
+			ln.Cs = append(ln.Cs, tc)
+			ps = append(ps, p)
+		}
+		var err error
+		pm := zzC04Try(func() { err = rig.load(ps) })
+		ln.Out, ln.Conc = outOf(err != nil)+pm, fmt.Sprintf("NewStorage(InitialClients: %d clients) -> %v %s", len(ps), err, pm)
+		for _, p := range ps {
+			ln.Conc += fmt.Sprintf(" [%q %v]", p.Name, p.IDs())
+		}
+		ln.Q = lookups()
+		w.put(ln)
+	}
+
 	for i := 0; i < nOps; i++ {
-		ln := &zzC04TLine{Trace: tr, M: zzC04NoID}
+		ln := &zzC04TLine{Trace: tr, M: zzC04NoID, Cs: []*zzC04TClient{}}
 		switch k := rng.Intn(100); {
 		case k < 35:
 			tc, p := randClient()
@@ -1364,7 +1490,7 @@ func zzC04OneTrace(tb testing.TB, w *zzWriter, tr, nOps int, seed int64, dir str
 						if !uniq[id] {
 							uniq[id] = true
 							dedup = append(dedup, id)
-							ids = append(ids, c.idString(id))
+							ids = append(ids, c.storedString(id, nameNo[tc.Name]))
 						}
 					}
 					tc.IDs = dedup
